@@ -22,7 +22,45 @@ table of what is wrong with each bad file; the futures' identities are the execu
 Property predicate (what is reported as a violation with the input as replay): the call returns a
 list with one signature per file, in file order, each equal to `calc_file_signature` of that file
 -- or, if a file is unreadable, raises (the exception of one of the unreadable files).  A
-model/implementation difference that leaves this predicate true is reported as a broken tie."""
+model/implementation difference that leaves this predicate true is reported as a broken tie.
+
+Coverage audit (statement / quantifier / observe-at item -> stream that drives it on the IMPLEMENTATION;
+P = property predicate checked there, M = also compared with the model; [new] = added by the audit):
+  one signature per file, file order, = single-file result   every stream (P); sched/pool/cli/var (M)
+  sequential                                 pool 'sequential' (PM); var mode seq x containers/progress/kspec [new]
+  threads / processes, owned pool            pool real-pool-* (PM); sched patched pool classes (PM, exhaustive n<=4)
+  concurrency left at its default            cli (PM); var mode 'default' [new] (PM)
+  worker counts                              pool 1..8,None (PM); sched max_workers arriving; var-worker-counts [new]: NumPy
+                                             integer scalars, 13/16/32 workers (PM), 0/-1/float/str (P, may refuse)
+  caller-supplied executor                   sched supplied (PM, exhaustive n<=5); pool supplied + second batch (PM);
+                                             var-supplied-executor-kinds [new]: synchronous executor (all futures finished
+                                             before waiting starts), burst executor (several futures finish per wake-up, any
+                                             split), pool busy with the caller's other jobs, two concurrent calls sharing
+                                             one pool, spawn/forkserver process pools, unwrapped pools, second batch through
+                                             each; concurrency=/max_workers= passed next to executor= (any value) (PM / P)
+  every completion order                     sched exhaustive + random + model pool orders (PM); simultaneous completions: burst/sync [new]
+  size skews, later files finish first       pool real-pool-skewed (big file first) (PM); var-skew-shapes [new]: big file in the
+                                             middle / last but one / descending / alternating / big gzip / slow-failing big file
+  unreadable file at every position          sched exhaustive x 6 classes, pool, sequential (PM); [new] 12 more classes (error
+                                             late in the file, bad gzip CRC, ELOOP, ENAMETOOLONG, dangling link, bad FASTQ,
+                                             wrong format / compression name, str / None element): sched-new-file-classes
+                                             (all orders x all positions, n=3) and var-new-unreadable-classes (every position,
+                                             every mode) -- outside the model's error table, judged by P alone
+  readable file classes                      FASTA / gzip / empty record (PM); [new] FASTQ, GenBank, CRLF, non-ASCII name with
+                                             shell characters, symlink, 300 contigs, zero-byte file, relative path, big gzip (PM)
+  repeated files, empty list, single file    pool repeated-file (equal objects) (PM); [new] the same OBJECT repeated (same_obj)
+  arguments the statement does not mention   [new] var-call-forms: files as tuple/deque/Sequence class (PM), ndarray/generator
+                                             (P, may refuse); progress = None/False/True/'click'/ProgressConfig/class/callable;
+                                             positional / all-keyword call; k-mer specs 4/ATG, 11/ATGAC, 12/ATG (set
+                                             accumulator, uint32), 17/AT (uint64); compression='auto' (PM)
+  gambit signatures create -c N              cli 7 fixed cases (PM); cli-variants [new]: -l list file, --ldir, --cores, progress
+                                             bar on, default / other k-mer spec, -c up to 12, repeated and unreadable files;
+                                             labels written next to the signatures must not be permuted (P)
+  other entry points reaching the code       [new] entry: gambit dist (-q/-r/--ql/--rl/--square, -c), gambit query, and
+                                             gambit.query.query_parse(parse_kw=concurrency/max_workers/executor) -- P on the
+                                             printed rows / result items (row i = distances of file i's signature)
+  not driven: gambit tree (same call as dist -s; its output is a tree, judged by C17); executors that break the
+  concurrent.futures contract (duplicate / never-finishing futures: excluded by ASSUMPTIONS)."""
 import gzip
 import itertools
 import os
@@ -36,7 +74,13 @@ RULE = ('sched: (files, chosen completion order sigma, path supplied|threads|pro
         'non-trivial: >=2 files with pairwise distinct signatures and sigma != submission order, or an unreadable '
         'file among >=2 files.  pool: real thread/process pool, max_workers, size-skewed files; non-trivial: >=2 '
         'distinct files and (observed completion order != submission order, or a bad file, or a skew with >=2 workers). '
-        'cli: signatures create -c N; non-trivial: >=2 distinct files')
+        'cli: signatures create -c N (also list files, --cores, progress bar, other k-mer specs); non-trivial: >=2 distinct files.  '
+        'var: (files incl. the audit\'s extra readable/unreadable classes, mode seq|threads|processes|default|sup-*, container, '
+        'progress argument, call form, worker count and its type, k-mer spec, compression=auto, same object repeated) -> result list or '
+        'exception, plus a second batch / a concurrent second call through a caller-supplied executor; non-trivial: >=2 files with '
+        'distinct signatures.  entry: gambit dist / gambit query / query_parse on genome files -> row i must be the distances of '
+        'file i\'s single-file signature (reference family with pairwise different distances), failure iff a file is unreadable; '
+        'non-trivial: >=2 distinct query files')
 TRUSTED = ['concurrent.futures (Future, as_completed, ThreadPoolExecutor, ProcessPoolExecutor) is runtime: modelled as '
            '"submit returns a fresh future; future.result() returns/re-raises the job\'s outcome; as_completed yields every '
            'future once, in any order" -- the harness executor realises exactly this contract with a chosen order',
@@ -75,7 +119,7 @@ _S = {}       # per-process state: scratch dir, file table
 # files
 # ------------------------------------------------------------------------------------------------
 
-def ref_signature(seqs):
+def ref_signature(seqs, K=K, PREFIX=PREFIX):
 	"""pure-Python reference: sorted k-mer indices following PREFIX on either strand"""
 	found = set()
 	plen = len(PREFIX)
@@ -122,7 +166,7 @@ def _file_table():
 			seqs[0] = s[:20] + 'NNNN' + s[24:40].lower() + s[40:]
 		path = os.path.join(d, fid + ('.fa.gz' if gz else '.fa'))
 		_write_fasta(path, seqs, gz)
-		files[fid] = dict(path=path, compression='gzip' if gz else None, ref=ref_signature(seqs), code=None, size=sum(lens))
+		files[fid] = dict(path=path, compression='gzip' if gz else None, ref=ref_signature(seqs), code=None, size=sum(lens), seqs=seqs)
 
 	for i in range(16):
 		good(f's{i}', [rng.randint(150, 400), rng.randint(60, 300)])
@@ -152,51 +196,169 @@ def _file_table():
 	bad('truncgz', 'trunc.fa.gz', 'gzip')
 	with open(files['truncgz']['path'], 'wb') as f:
 		f.write(gzip.compress(b'>a\nATGGGGGGGGGGATCCCCCCCCCC\n' * 200)[:60])
+	_more_files(d, files)
 	_S['files'] = files
 	_S['dir'] = d
 	return files
 
 
-def _kspec():
+def _more_files(d, files):
+	"""file classes added by the coverage audit.  Own generator, created after the original files, so the
+	original files stay byte-identical (corpus cases keep their meaning).
+	good files: ref/seqs as above (+ 'format', 'id' = the label the command line derives from the name).
+	bad files outside the model's error table: code None, ref None, xbad = what is wrong (judged by the
+	property predicate alone: the single-file call of the implementation says whether they are unreadable)."""
+	rng = random.Random(POOL_SEED + 1)
+
+	def rseq(n):
+		return ''.join(rng.choice('ACGT') for _ in range(n))
+
+	def fasta_text(seqs, nl='\n'):
+		return ''.join(f'>c{i} x{nl}' + nl.join(s[j:j + 60] for j in range(0, len(s), 60)) + nl for i, s in enumerate(seqs))
+
+	def good(fid, name, seqs, text=None, fmt='fasta', compression=None, **kw):
+		path = os.path.join(d, name)
+		if text is not None:
+			with (gzip.open(path, 'wt', newline='') if compression == 'gzip' else open(path, 'w', newline='')) as f:
+				f.write(text)
+		files[fid] = dict(path=path, format=fmt, compression=compression, ref=ref_signature(seqs), code=None,
+		                  size=sum(len(x) for x in seqs), seqs=seqs, **kw)
+
+	# a family of related genomes (nested contig sets): pairwise distances all differ, so a distance
+	# matrix / a database query identifies which signature sits where
+	contigs = [rseq(300) for _ in range(48)]
+	for i in range(8):
+		seqs = contigs[:6 * (i + 1)]
+		good(f'f{i}', f'f{i}.fa', seqs, fasta_text(seqs), id=f'f{i}')
+	seqs = [rseq(200) for _ in range(3)]
+	good('q0', 'reads.fastq', seqs, ''.join(f'@r{i}\n{x}\n+\n{"I" * len(x)}\n' for i, x in enumerate(seqs)), fmt='fastq')
+	seqs = [rseq(500), rseq(320)]
+	good('g0', 'genome.gb', seqs, fmt='genbank')
+	from Bio import SeqIO
+	from Bio.Seq import Seq
+	from Bio.SeqRecord import SeqRecord
+	SeqIO.write([SeqRecord(Seq(x), id=f'G{i}', name=f'G{i}', description='verif', annotations={'molecule_type': 'DNA'})
+	             for i, x in enumerate(seqs)], files['g0']['path'], 'genbank')
+	seqs = [rseq(260), rseq(130)]
+	good('c0', 'crlf.fa', seqs, fasta_text(seqs, '\r\n'), id='crlf')
+	seqs = [rseq(300)]
+	good('u0', "g\u00e9n ome (1) [x] 'q' $HOME;#&-\u4e2d.fasta", seqs, fasta_text(seqs), id="g\u00e9n ome (1) [x] 'q' $HOME;#&-\u4e2d")
+	seqs = [rseq(rng.randint(30, 60)) for _ in range(300)]
+	good('n0', 'many-contigs.fa', seqs, fasta_text(seqs), id='many-contigs')
+	seqs = [rseq(140000)]
+	good('zb0', 'zbig.fa.gz', seqs, fasta_text(seqs), compression='gzip', id='zbig')
+	good('x0', 'zero-bytes.fa', [], '', id='zero-bytes')
+	seqs = [rseq(280)]
+	good('rel0', 'relative.fa', seqs, fasta_text(seqs), id='relative')
+	files['rel0']['path'] = os.path.relpath(files['rel0']['path'])
+	seqs = [rseq(240)]
+	good('k0', 'link-target.fa', seqs, fasta_text(seqs), id='link-target')
+	files['k1'] = dict(files['k0'], path=os.path.join(d, 'link.fa'), id='link')
+	os.symlink(files['k0']['path'], files['k1']['path'])
+
+	def xbad(fid, name, what, content=None, fmt='fasta', compression=None, elem='seqfile'):
+		path = os.path.join(d, name)
+		if content is not None:
+			with open(path, 'wb') as f:
+				f.write(content)
+		files[fid] = dict(path=path, format=fmt, compression=compression, ref=None, code=None, size=len(content or b''), xbad=what, elem=elem)
+
+	xbad('late', 'late.fa', 'undecodable byte after three good records', fasta_text([rseq(900), rseq(900), rseq(900)]).encode() + b'>z\nACGT\xff\xfe\n')
+	xbad('latebig', 'latebig.fa', 'undecodable byte after 150 kb of good sequence (fails late)', fasta_text([rseq(150000)]).encode() + b'>z\nAC\xff\n')
+	raw = gzip.compress(fasta_text([rseq(3000)]).encode())
+	xbad('badcrc', 'badcrc.fa.gz', 'gzip member with a wrong CRC (detected at end of stream)', raw[:-8] + bytes([raw[-8] ^ 1]) + raw[-7:], compression='gzip')
+	xbad('longname', 'n' * 300 + '.fa', 'file name longer than NAME_MAX')
+	xbad('loop', 'loop.fa', 'symbolic link to itself')
+	os.symlink(files['loop']['path'], files['loop']['path'])
+	xbad('dangling', 'dangling.fa', 'symbolic link to nothing')
+	os.symlink(os.path.join(d, 'no-such-target'), files['dangling']['path'])
+	xbad('badfastq', 'bad.fastq', 'FASTQ record whose quality string is too short', b'@r1\nACGTATGGGGGGGGGG\n+\nIIII\n', fmt='fastq')
+	xbad('gbasfa', 'genbank-as.fa', 'GenBank text declared as FASTA', open(files['g0']['path'], 'rb').read())
+	xbad('badfmt', 'badfmt.fa', 'SequenceFile with an unknown format name', b'>a\nATGGGGGGGGGGACGT\n', fmt='no-such-format')
+	xbad('badcomp', 'badcomp.fa', 'SequenceFile with an unknown compression name', b'>a\nATGGGGGGGGGGACGT\n', compression='zip9')
+	xbad('strelem', 'plain-str.fa', 'list element is a plain str path, not a SequenceFile', fasta_text([rseq(200)]).encode(), elem='str')
+	xbad('noneelem', 'none', 'list element is None', elem='none')
+
+
+XBAD = ['late', 'latebig', 'badcrc', 'longname', 'loop', 'dangling', 'badfastq', 'gbasfa', 'badfmt', 'badcomp', 'strelem', 'noneelem']
+
+
+def _kspec(ks=None):
+	"""ks: None (the default K/PREFIX) or (k, prefix)"""
 	from gambit.kmers import KmerSpec
-	return KmerSpec(K, PREFIX)
+	return KmerSpec(K, PREFIX) if ks is None else KmerSpec(int(ks[0]), ks[1])
 
 
-def _seqfile(fid):
+def _ks(case):
+	ks = case.get('kspec')
+	return None if ks is None or (ks[0], ks[1]) == (K, PREFIX) else (int(ks[0]), str(ks[1]))
+
+
+def _seqfile(fid, auto=False):
+	"""the list element for file `fid`: a SequenceFile (auto: compression='auto', as the command line passes it),
+	or, for the two malformed-element classes, a str / None"""
 	from gambit.seq import SequenceFile
 	f = _file_table()[fid]
-	return SequenceFile(f['path'], 'fasta', f['compression'])
+	if f.get('elem') == 'str':
+		return f['path']
+	if f.get('elem') == 'none':
+		return None
+	return SequenceFile(f['path'], f.get('format', 'fasta'), 'auto' if auto else f['compression'])
+
+
+def _ref(fid, ks=None):
+	"""the harness's reference signature of a good file for k-mer spec ks (None for a bad file)"""
+	f = _file_table()[fid]
+	if ks is None or f['ref'] is None:
+		return f['ref']
+	cache = _S.setdefault('refs', {})
+	if (fid, ks) not in cache:
+		cache[fid, ks] = ref_signature(f['seqs'], ks[0], ks[1])
+	return cache[fid, ks]
+
+
+def _is_bad(fid):
+	f = _file_table()[fid]
+	return f['code'] is not None or 'xbad' in f
+
+
+def _modelled(fids):
+	"""every file is inside the model's domain (readable with a reference signature, or one of the six BAD classes)"""
+	return all('xbad' not in _file_table()[f] for f in fids)
 
 
 def _canon_sig(a):
 	return [int(x) for x in a]
 
 
-def _single(fid):
+def _single(fid, ks=None, auto=False):
 	"""the single-file result of the implementation, cached: ('ok', sig) | ('err', class name)"""
 	cache = _S.setdefault('single', {})
-	if fid not in cache:
+	key = fid if ks is None and not auto else (fid, ks, auto)
+	if key not in cache:
 		from gambit.sigs.calc import calc_file_signature
 		try:
-			cache[fid] = ('ok', _canon_sig(calc_file_signature(_kspec(), _seqfile(fid))))
+			cache[key] = ('ok', _canon_sig(calc_file_signature(_kspec(ks), _seqfile(fid, auto))))
 		except Exception as e:     # noqa: the class is the observable
-			cache[fid] = ('err', type(e).__name__)
-	return cache[fid]
+			cache[key] = ('err', type(e).__name__)
+	return cache[key]
 
 
-def _model_fres(fid):
+def _model_fres(fid, ks=None):
 	f = _file_table()[fid]
-	return [1, f['code']] if f['code'] is not None else [0, f['ref']]
+	return [1, f['code']] if f['code'] is not None else [0, _ref(fid, ks)]
 
 
-def _tie_usable(fids):
+def _tie_usable(fids, ks=None, auto=False):
 	"""the model input (reference signature / error table) agrees with the single-file implementation
 	result for every file of the case; otherwise only the property predicate is evaluated"""
 	for fid in fids:
 		f = _file_table()[fid]
-		kind, val = _single(fid)
+		kind, val = _single(fid, ks, auto)
+		if 'xbad' in f:
+			return False
 		if f['code'] is None:
-			if kind != 'ok' or val != f['ref']:
+			if kind != 'ok' or val != _ref(fid, ks):
 				return False
 		elif kind != 'err' or CODE_OF_EXC.get(val) != f['code']:
 			return False
@@ -215,11 +377,11 @@ def _observe(call):
 		return ('done-unreadable', repr(e))
 
 
-def _predicate(fids, obs, may_refuse=False):
+def _predicate(fids, obs, may_refuse=False, ks=None, auto=False):
 	"""the property on this input; returns None if it holds, else a description.
 	may_refuse: the call was made with arguments the function rejects (unknown concurrency string) --
 	raising is then fine, only a wrong list would be a violation"""
-	singles = [_single(f) for f in fids]
+	singles = [_single(f, ks, auto) for f in fids]
 	bad_names = {v for k, v in singles if k == 'err'}
 	if obs[0] == 'done':
 		if bad_names:
@@ -249,7 +411,9 @@ def _describe(fids):
 	for f in fids:
 		t = _file_table()[f]
 		out[f] = (f'unreadable ({f}): single-file call raises {BAD[f][1]}' if t['code'] is not None
-		          else f'FASTA{" (gzip)" if t["compression"] else ""}, {t["size"]} nt, {len(t["ref"])} k-mers (k={K}, prefix {PREFIX})')
+		          else f'{t["xbad"]} ({os.path.basename(t["path"])[:40]}); the single-file call ' + ('succeeds' if _single(f)[0] == 'ok' else f'raises {_single(f)[1]}') if 'xbad' in t
+		          else f'{t.get("format", "fasta").upper()}{" (gzip)" if t["compression"] else ""} {os.path.basename(t["path"])[:40]!r}, {t["size"]} nt, '
+		               f'{len(t["ref"])} k-mers (k={K}, prefix {PREFIX})')
 	return out
 
 
@@ -437,24 +601,36 @@ def _conc_code(path):
 	return {'supplied': (1, True), 'threads': (1, False), 'processes': (2, False), 'none': (0, False)}[path]
 
 
-def _distinct(fids):
-	sigs = [tuple(_file_table()[f]['ref']) for f in fids if _file_table()[f]['ref'] is not None]
+def _distinct(fids, ks=None):
+	sigs = [tuple(_ref(f, ks)) for f in fids if _file_table()[f]['ref'] is not None]
 	return len(set(sigs)) == len(sigs)
 
 
-def _judge(ctx, kind, case, fids, obs, model_ans, exact, nontrivial, may_refuse=False):
+def _model_batch(ctx, reqs):
+	"""reqs: list of request | None (case outside the model's domain) -> list of answer | None; None if the model is off"""
+	if not ctx.model_ok:
+		return None
+	idx = [j for j, r in enumerate(reqs) if r is not None]
+	out = [None] * len(reqs)
+	if idx:
+		for j, a in zip(idx, ctx.model([reqs[j] for j in idx])):
+			out[j] = a
+	return out
+
+
+def _judge(ctx, kind, case, fids, obs, model_ans, exact, nontrivial, may_refuse=False, ks=None, auto=False, how=''):
 	"""common verdict.  model_ans: model outcome for this case (or None); exact: compare impl with
 	model exactly (controlled schedule / single possible outcome) or only up to 'one of the files' errors'"""
 	ctx.case(case, nontrivial=nontrivial)
-	bad = _predicate(fids, obs, may_refuse)
+	bad = _predicate(fids, obs, may_refuse, ks, auto)
 	mobs = _model_obs(model_ans, fids) if model_ans is not None else None
 	if may_refuse and mobs is not None and mobs[0] == 'raised' and obs[0] == 'raised':
 		mobs = obs       # which exception reports the rejected argument is not the property's business
 	if bad is not None:
-		ctx.violation(kind, case, f'calc_file_signatures on {len(fids)} files ({kind}): {bad}',
-		              impl=obs, spec=[_single(f) for f in fids], model=mobs, files=_describe(fids))
+		ctx.violation(kind, case, f'calc_file_signatures on {len(fids)} files ({kind}{how}): {bad}',
+		              impl=obs, spec=[_single(f, ks, auto) for f in fids], model=mobs, files=_describe(fids))
 		return
-	if mobs is None or not _tie_usable(fids):
+	if mobs is None or not _tie_usable(fids, ks, auto):
 		if mobs is not None:
 			ctx.count('tie-skipped:reference-differs-from-single-file-result')
 		return
@@ -501,19 +677,22 @@ def k_sched(ctx, cases):
 		if not made:
 			ctx.count('sched:executor-not-routed-through-patch')
 		runs.append((obs, controlled))
-	ans = None
-	if ctx.model_ok:
-		reqs = []
-		for case in cases:
-			fids = case['files']
-			tasks = [[1000 + 7 * i, _model_fres(f)] for i, f in enumerate(fids)]    # the futures' identities
-			c, sup = _conc_code(case['path'])
-			reqs.append((1303, [c, sup, tasks, [1000 + 7 * i for i in case['sigma']]]))
-		ans = ctx.model(reqs)
+	reqs = []
+	for case in cases:
+		fids = case['files']
+		if not _modelled(fids):
+			# a file class outside the model's error table: judged by the property predicate alone
+			ctx.count('sched:judged-by-predicate-only')
+			reqs.append(None)
+			continue
+		tasks = [[1000 + 7 * i, _model_fres(f)] for i, f in enumerate(fids)]    # the futures' identities
+		c, sup = _conc_code(case['path'])
+		reqs.append((1303, [c, sup, tasks, [1000 + 7 * i for i in case['sigma']]]))
+	ans = _model_batch(ctx, reqs)
 	for j, case in enumerate(cases):
 		fids, sigma = case['files'], case['sigma']
 		obs, controlled = runs[j]
-		nbad = sum(1 for f in fids if _file_table()[f]['code'] is not None)
+		nbad = sum(1 for f in fids if _is_bad(f))
 		nontriv = len(fids) >= 2 and _distinct(fids) and (sigma != sorted(sigma) or nbad > 0) and controlled
 		ctx.count('sched:path-' + case['path'])
 		if sigma != sorted(sigma):
@@ -597,59 +776,670 @@ def k_pool(ctx, cases):
 		_judge(ctx, 'pool', case, fids, obs, ans[j] if ans else None, exact=nbad <= 1, nontrivial=nontriv, may_refuse=refuse)
 
 
-def k_cli(ctx, cases):
+def _cli_ks(case):
+	"""k-mer spec of a command-line case: 'kspec' absent -> -k K -p PREFIX; 'default' -> no -k/-p (gambit's default
+	11/ATGAC); [k, prefix] -> given"""
+	ks = case.get('kspec')
+	if ks is None:
+		return None, ['-k', str(K), '-p', PREFIX]
+	if ks == 'default':
+		return (11, 'ATGAC'), []
+	return _ks(case), ['-k', str(ks[0]), '-p', str(ks[1])]
+
+
+def _cli_file_args(case, fids, n, positional=True, flag=None):
+	"""how the genome files are named on the command line: positional / repeated flag, or a list file with absolute
+	paths ('abs'), or a list file with names relative to --ldir ('ldir'; all audit files live in one directory)"""
+	paths = [_file_table()[f]['path'] for f in fids]
+	how = case.get('listfile')
+	if not how:
+		if positional:
+			return list(paths)
+		return [x for p in paths for x in (flag[0], p)]
+	lf = os.path.join(_S['dir'], 'cli-out', f'list-{os.getpid()}-{n}-{flag[1] if flag else "l"}.txt')
+	with open(lf, 'w') as f:
+		for p in paths:
+			f.write((os.path.relpath(os.path.abspath(p), _S['dir']) if how == 'ldir' else os.path.abspath(p)) + '\n')
+			if case.get('blank_lines'):
+				f.write('\n')
+	args = [flag[1] if flag else '-l', lf]
+	if how == 'ldir':
+		args += [flag[2] if flag else '--ldir', _S['dir']]
+	return args
+
+
+def _cli_common(case):
+	args = []
+	if not case.get('progress'):
+		args.append('--no-progress')
+	if case.get('cores') is not None:
+		args += ['--cores' if case.get('long') else '-c', str(case['cores'])]
+	return args
+
+
+def _invoke(args):
 	from click.testing import CliRunner
 	import gambit.cli
+	res = CliRunner().invoke(gambit.cli.cli, args)
+	if res.exit_code == 0 and res.exception is None:
+		return None
+	return ('raised', type(res.exception).__name__ if res.exception is not None else f'exit{res.exit_code}')
+
+
+def k_cli(ctx, cases):
 	from gambit.sigs.base import load_signatures
 	out_dir = os.path.join(_S['dir'], 'cli-out')
 	os.makedirs(out_dir, exist_ok=True)
 	runs = []
 	for n, case in enumerate(cases):
 		fids = case['files']
+		ks, ksargs = _cli_ks(case)
 		out = os.path.join(out_dir, f'out-{os.getpid()}-{n}.gs')
 		if os.path.exists(out):
 			os.remove(out)
-		args = ['signatures', 'create', '-k', str(K), '-p', PREFIX, '-o', out, '--no-progress']
-		if case.get('cores') is not None:
-			args += ['-c', str(case['cores'])]
-		args += [_file_table()[f]['path'] for f in fids]
-		res = CliRunner().invoke(gambit.cli.cli, args)
-		if res.exit_code == 0 and res.exception is None:
+		args = ['signatures', 'create'] + ksargs + ['-o', out] + _cli_common(case) + _cli_file_args(case, fids, n)
+		obs = _invoke(args)
+		ids = None
+		if obs is None:
 			def read():
+				nonlocal ids
 				with load_signatures(out) as sigs:
+					ids = [str(x) for x in sigs.ids]
 					return [sigs[i] for i in range(len(sigs))]
 			obs = _observe(read)
 			if obs[0] == 'raised':
 				obs = ('output-unreadable', obs[1])
-		else:
-			obs = ('raised', type(res.exception).__name__ if res.exception is not None else f'exit{res.exit_code}')
 		if os.path.exists(out):
 			os.remove(out)
-		runs.append(obs)
-	ans = None
-	if ctx.model_ok:
-		reqs = [(1303, [2, False, [[i, _model_fres(f)] for i, f in enumerate(c['files'])], list(range(len(c['files'])))]) for c in cases]
-		ans = ctx.model(reqs)
+		runs.append((obs, ids))
+	# the command line opens every file with compression='auto'
+	reqs = [(1303, [2, False, [[i, _model_fres(f, _cli_ks(c)[0])] for i, f in enumerate(c['files'])], list(range(len(c['files'])))])
+	        if _modelled(c['files']) else None for c in cases]
+	ans = _model_batch(ctx, reqs)
 	for j, case in enumerate(cases):
 		fids = case['files']
-		nbad = sum(1 for f in fids if _file_table()[f]['code'] is not None)
+		ks = _cli_ks(case)[0]
 		ctx.count('cli:cases')
+		for feature in ('listfile', 'progress', 'long', 'kspec'):
+			if case.get(feature):
+				ctx.count(f'cli:{feature}')
 		# the command line reports failures as SystemExit/exit status: only done-vs-failed is compared with the model
-		obs = runs[j]
-		ctx.case(case, nontrivial=len(fids) >= 2 and _distinct(fids))
-		bad = _predicate(fids, obs)
+		obs, ids = runs[j]
+		ctx.case(case, nontrivial=len(fids) >= 2 and _distinct(fids, ks))
+		bad = _predicate(fids, obs, ks=ks, auto=True)
+		if bad is None and obs[0] == 'done' and ids is not None:
+			# the labels written next to the signatures: if they are the expected labels in another order, the
+			# signatures are misplaced relative to their files (any other label difference is not this property's business)
+			want = [_file_table()[f].get('id', f) for f in fids]
+			if ids != want and sorted(ids) == sorted(want):
+				bad = f'signatures are in file order but their labels are not: {ids}, files given as {want}'
+			elif ids != want:
+				ctx.count('cli:note-labels-differ-from-expected')
 		if bad is not None:
 			ctx.violation('cli', case, f'gambit signatures create -c {case.get("cores")} on {len(fids)} files: {bad}',
-			              impl=obs, spec=[_single(f) for f in fids], model=_model_obs(ans[j], fids) if ans else None,
+			              impl=obs, spec=[_single(f, ks, True) for f in fids], model=_model_obs(ans[j], fids) if ans and ans[j] is not None else None,
 			              files=_describe(fids))
-		elif ans is not None and _tie_usable(fids):
+		elif ans is not None and ans[j] is not None and _tie_usable(fids, ks, True):
 			m = _model_obs(ans[j], fids)
 			if m[0] != obs[0] or (m[0] == 'done' and m[1] != obs[1]):
 				ctx.broke('correspondence cli (model outcome != implementation outcome, property predicate holds)',
 				          f'case {case}: impl={str(obs)[:200]} model={str(m)[:200]}')
 
 
-KINDS = {'sched': k_sched, 'pool': k_pool, 'cli': k_cli}
+# ------------------------------------------------------------------------------------------------
+# kind var: the same call, varied in everything the statement does not mention (coverage audit)
+# ------------------------------------------------------------------------------------------------
+
+class SyncExecutor(Executor):
+	"""the job runs inside submit(): every future is already finished when as_completed starts"""
+
+	def __init__(self):
+		self.shutdowns = 0
+		self.closed = False
+
+	def submit(self, fn, /, *args, **kwargs):
+		if self.closed:
+			raise RuntimeError('cannot schedule new futures after shutdown')
+		f = Future()
+		_finish(f, fn, args, kwargs)
+		return f
+
+	def shutdown(self, wait=True, *, cancel_futures=False):
+		self.shutdowns += 1
+		self.closed = True
+
+
+def _finish(f, fn, args, kwargs):
+	if f.set_running_or_notify_cancel():
+		try:
+			r = fn(*args, **kwargs)
+		except BaseException as e:     # noqa
+			f.set_exception(e)
+		else:
+			f.set_result(r)
+
+
+class BurstExecutor(Executor):
+	"""futures stay pending until the n-th submit of a batch; then the futures sigma[:split] are finished at
+	once (still inside submit, i.e. before as_completed starts) and a thread finishes the others back to
+	back, without waiting for the consumer: as_completed sees several finished futures per wake-up.
+	A watchdog releases an incomplete batch after 2 s (an implementation that submits fewer jobs must not
+	hang the campaign)."""
+
+	def __init__(self, n, sigma, split):
+		self.n, self.sigma, self.split = n, list(sigma), split
+		self.lock = threading.Lock()
+		self.tasks = []
+		self.threads = []
+		self.shutdowns = 0
+		self.closed = False
+
+	def submit(self, fn, /, *args, **kwargs):
+		if self.closed:
+			raise RuntimeError('cannot schedule new futures after shutdown')
+		f = Future()
+		with self.lock:
+			self.tasks.append((f, fn, args, kwargs))
+			first, full = len(self.tasks) == 1, len(self.tasks) >= self.n
+			batch = self.tasks
+			if full:
+				self.tasks = []
+		if full:
+			self._release(batch)
+		elif first:
+			t = threading.Timer(2.0, self._watchdog, [batch])
+			t.daemon = True
+			t.start()
+		return f
+
+	def _watchdog(self, batch):
+		with self.lock:
+			if self.tasks is not batch:
+				return
+			self.tasks = []
+		self._release(batch)
+
+	def _release(self, batch):
+		order = [i for i in self.sigma if i < len(batch)] + [i for i in range(len(batch)) if i not in self.sigma]
+		for i in order[:self.split]:
+			_finish(*batch[i])
+		rest = [batch[i] for i in order[self.split:]]
+		if rest:
+			t = threading.Thread(target=lambda: [_finish(*x) for x in rest], daemon=True)
+			self.threads.append(t)
+			t.start()
+
+	def shutdown(self, wait=True, *, cancel_futures=False):
+		self.shutdowns += 1
+		self.closed = True
+
+
+class ListLike:
+	"""a minimal collections.abc.Sequence that is not a list"""
+
+	def __init__(self, items):
+		self._items = list(items)
+
+	def __len__(self):
+		return len(self._items)
+
+	def __getitem__(self, i):
+		return self._items[i]
+
+	def __iter__(self):
+		return iter(self._items)
+
+
+def _container(kind, elems):
+	import collections
+	import collections.abc
+	import numpy as np
+	if kind == 'tuple':
+		return tuple(elems)
+	if kind == 'deque':
+		return collections.deque(elems)
+	if kind == 'seqclass':
+		collections.abc.Sequence.register(ListLike)
+		return ListLike(elems)
+	if kind == 'ndarray':
+		a = np.empty(len(elems), dtype=object)
+		for i, e in enumerate(elems):
+			a[i] = e
+		return a
+	if kind == 'generator':
+		return (e for e in elems)
+	return list(elems)
+
+
+#: containers that are not a Sequence of files: the function may refuse them (raise); only a wrong list counts
+LOOSE_CONTAINERS = ('ndarray', 'generator')
+WORKER_TYPES = ('int', 'np.int64', 'np.intp', 'np.uint8', 'np.int32')
+
+
+def _workers(case):
+	import numpy as np
+	w = case.get('workers')
+	t = case.get('wtype', 'int')
+	if w is None or t == 'int':
+		return w
+	if t == 'float':
+		return float(w)
+	if t == 'str':
+		return str(w)
+	return getattr(np, t[3:])(w)
+
+
+def _workers_valid(case):
+	w = case.get('workers')
+	return w is None or (case.get('wtype', 'int') in WORKER_TYPES and w >= 1)
+
+
+class _RecMeter:
+	"""a permissive progress meter (plain factory function protocol)"""
+
+	def __init__(self, total, initial=0, **kw):
+		self.total, self.n, self.closed = total, initial, False
+
+	def increment(self, delta=1):
+		self.n += delta
+
+	def moveto(self, n):
+		self.n = n
+
+	def close(self):
+		self.closed = True
+
+	def __enter__(self):
+		return self
+
+	def __exit__(self, *a):
+		self.close()
+
+
+def _progress_arg(name):
+	"""the value passed as progress= (all of them are accepted by gambit.util.progress.get_progress)"""
+	from gambit.util import progress as gp
+	if name in (None, 'none'):
+		return None
+	if name == 'false':
+		return False
+	if name == 'true':
+		return True             # tqdm if installed, otherwise a warning + no meter
+	if name == 'click':
+		return 'click'
+	if name == 'config':
+		return gp.progress_config('click', desc='verif')
+	if name == 'nullclass':
+		return gp.NullProgressMeter
+	if name == 'subclass':
+		if 'meter_subclass' not in _S:
+			class Sub(gp.AbstractProgressMeter):
+				def __init__(self, total, initial=0, **kw):
+					self.total, self.n, self.closed = total, initial, False
+
+				def increment(self, delta=1):
+					self.n += delta
+
+				def moveto(self, n):
+					self.n = n
+
+				def close(self):
+					self.closed = True
+
+				@classmethod
+				def create(cls, total, initial=0, **kw):
+					return cls(total, initial, **kw)
+			_S['meter_subclass'] = Sub
+		return _S['meter_subclass']
+	if name == 'callable':
+		return _RecMeter
+	raise ValueError(name)
+
+
+class _Quiet:
+	"""swallow what progress bars / warnings print during a call.  sys.stdout is process-wide and calls may run in
+	two threads at once (sup-shared), so the swap is counted: first one in swaps, last one out restores."""
+	lock = threading.Lock()
+	depth = 0
+	saved = None
+
+	def __enter__(self):
+		import io
+		import sys
+		import warnings
+		with _Quiet.lock:
+			if _Quiet.depth == 0:
+				_Quiet.saved = (sys.stdout, sys.stderr, warnings.filters[:])
+				sys.stdout, sys.stderr = io.StringIO(), io.StringIO()
+				warnings.simplefilter('ignore')
+			_Quiet.depth += 1
+
+	def __exit__(self, *a):
+		import sys
+		import warnings
+		with _Quiet.lock:
+			_Quiet.depth -= 1
+			if _Quiet.depth == 0:
+				sys.stdout, sys.stderr, warnings.filters[:] = _Quiet.saved
+
+
+PROGRESS_KINDS = ['none', 'false', 'true', 'click', 'config', 'nullclass', 'subclass', 'callable']
+_OMIT = object()
+
+
+def _call_calc(form, kspec, files, progress=_OMIT, concurrency=_OMIT, max_workers=_OMIT, executor=_OMIT):
+	"""call forms: kw (options by keyword, omitted ones left to their defaults), allkw (everything by keyword),
+	pos (everything positional, which needs every option: omitted ones are given their documented defaults)"""
+	import gambit.sigs.calc as calc
+	opts = dict(progress=progress, concurrency=concurrency, max_workers=max_workers, executor=executor)
+	with _Quiet():
+		if form == 'pos':
+			d = dict(progress=None, concurrency='processes', max_workers=None, executor=None)
+			return calc.calc_file_signatures(kspec, files, *[d[k] if opts[k] is _OMIT else opts[k] for k in ('progress', 'concurrency', 'max_workers', 'executor')])
+		kw = {k: v for k, v in opts.items() if v is not _OMIT}
+		if form == 'allkw':
+			return calc.calc_file_signatures(kspec=kspec, files=files, **kw)
+		return calc.calc_file_signatures(kspec, files, **kw)
+
+
+VAR_MODES = ('seq', 'threads', 'processes', 'default', 'sup-threads', 'sup-processes', 'sup-sync', 'sup-burst', 'sup-busy', 'sup-shared',
+             'sup-spawn', 'sup-forkserver')
+
+
+def _run_var(case):
+	"""-> list of (fids, observation): the call itself, then (caller-supplied executors) a second batch through
+	the same executor / the concurrent second call"""
+	import multiprocessing
+	ks, auto = _ks(case), bool(case.get('auto'))
+	kspec = _kspec(ks)
+	fids, mode, form = case['files'], case['mode'], case.get('form', 'kw')
+	made = {}
+
+	def elems(fs):
+		out = []
+		for f in fs:
+			if case.get('same_obj'):
+				if f not in made:
+					made[f] = _seqfile(f, auto)
+				out.append(made[f])
+			else:
+				out.append(_seqfile(f, auto))
+		return out
+
+	def files_of(fs):
+		return _container(case.get('container', 'list'), elems(fs))
+
+	w = _workers(case)
+	prog = _OMIT if 'progress' not in case else _progress_arg(case['progress'])
+	if not mode.startswith('sup-'):
+		conc = {'seq': None, 'threads': 'threads', 'processes': 'processes', 'default': _OMIT}[mode]
+		obs = _observe(lambda: _call_calc(form, kspec, files_of(fids), progress=prog, concurrency=conc, max_workers=_OMIT if w is None and form == 'kw' else w))
+		return [(fids, obs)]
+	# caller-supplied executors.  What is passed next to executor= must not matter ("overrides"): vary it
+	extra = case.get('extra', 'omit')
+	conc = _OMIT if extra == 'omit' else None if extra == 'none' else extra
+	n = len(fids)
+	pw = case.get('pool_workers') or 2
+	noise = []
+	if mode in ('sup-threads', 'sup-busy', 'sup-shared'):
+		ex = ThreadPoolExecutor(max_workers=pw)
+	elif mode == 'sup-processes':
+		ex = ProcessPoolExecutor(max_workers=pw)
+	elif mode in ('sup-spawn', 'sup-forkserver'):
+		ex = ProcessPoolExecutor(max_workers=pw, mp_context=multiprocessing.get_context(mode[4:]))
+	elif mode == 'sup-sync':
+		ex = SyncExecutor()
+	else:
+		ex = BurstExecutor(n, case.get('sigma', list(range(n))), case.get('split', n))
+	out = []
+	try:
+		def call(fs):
+			return _observe(lambda: _call_calc(form, kspec, files_of(fs), progress=prog, concurrency=conc, max_workers=_OMIT if w is None else w, executor=ex))
+		if mode == 'sup-busy':
+			# the caller's pool already has other work queued, and more arrives while the call runs
+			noise += [ex.submit(time.sleep, 0.004) for _ in range(3 * pw)]
+			stop = threading.Event()
+
+			def feeder():
+				while not stop.is_set() and len(noise) < 200:
+					try:
+						noise.append(ex.submit(time.sleep, 0.001))
+					except RuntimeError:
+						return
+					time.sleep(0.0005)
+			t = threading.Thread(target=feeder, daemon=True)
+			t.start()
+			try:
+				out.append((fids, call(fids)))
+			finally:
+				stop.set()
+				t.join(10)
+		elif mode == 'sup-shared':
+			# two calls from two threads share the caller's pool
+			fids2 = case['files2']
+			box = {}
+			t = threading.Thread(target=lambda: box.setdefault('obs', call(fids2)), daemon=True)
+			t.start()
+			out.append((fids, call(fids)))
+			t.join(120)
+			out.append((fids2, box.get('obs', ('raised', 'second concurrent call did not return within 120 s'))))
+		else:
+			out.append((fids, call(fids)))
+		if mode not in ('sup-spawn', 'sup-forkserver', 'sup-shared'):
+			# the caller owns the executor: a second batch (rotated) through the same object
+			fs2 = fids[1:] + fids[:1]
+			out.append((fs2, call(fs2)))
+	finally:
+		ex.shutdown(wait=True)
+		for t in getattr(ex, 'threads', []):
+			t.join(30)
+	return out
+
+
+def k_var(ctx, cases):
+	runs = []
+	for c in cases:
+		r = _run_var(c)
+		if any(o == ('raised', 'BrokenProcessPool') for _, o in r):
+			ctx.count('pool:broken-process-pool-retried')
+			r = _run_var(c)
+			if any(o == ('raised', 'BrokenProcessPool') for _, o in r):
+				raise RuntimeError('process pool keeps breaking in this environment (worker processes are being killed)')
+		runs.append(r)
+	reqs = []
+	refuse = []
+	for case in cases:
+		fids, mode = case['files'], case['mode']
+		ks = _ks(case)
+		# outside the function's documented domain: it may raise instead (only a wrong list is a violation), and
+		# the model (which has no notion of these arguments) is not consulted
+		may_refuse = (case.get('container') in LOOSE_CONTAINERS or not _workers_valid(case)
+		              or case.get('extra', 'omit') not in ('omit', 'none', 'threads', 'processes'))
+		refuse.append(may_refuse)
+		if may_refuse or not _modelled(fids):
+			ctx.count('var:judged-by-predicate-only')
+			reqs.append(None)
+			continue
+		c = {'seq': 0, 'threads': 1, 'processes': 2, 'default': 2}.get(mode, 1)
+		reqs.append((1303, [c, mode.startswith('sup-'), [[i, _model_fres(f, ks)] for i, f in enumerate(fids)], list(range(len(fids)))]))
+	ans = _model_batch(ctx, reqs)
+	for j, case in enumerate(cases):
+		ks, auto = _ks(case), bool(case.get('auto'))
+		ctx.count('var:mode-' + case['mode'])
+		for feature in ('container', 'progress', 'form', 'wtype', 'extra', 'kspec', 'auto', 'same_obj'):
+			if case.get(feature) not in (None, False):
+				ctx.count(f'var:{feature}-{case[feature] if feature not in ("kspec", "auto", "same_obj") else "varied"}')
+		first = True
+		for fids, obs in runs[j]:
+			nbad = sum(1 for f in fids if _is_bad(f))
+			nontriv = len(fids) >= 2 and _distinct(fids, ks)
+			if first:
+				_judge(ctx, 'var', case, fids, obs, ans[j] if ans else None, exact=nbad <= 1, nontrivial=nontriv, may_refuse=refuse[j], ks=ks, auto=auto,
+				       how=': ' + case['mode'])
+			else:
+				bad2 = _predicate(fids, obs, refuse[j], ks, auto)
+				if bad2 is not None:
+					ctx.violation('var', case, f'{"concurrent second call" if case["mode"] == "sup-shared" else "second batch (files rotated)"} through the same '
+					              f'caller-supplied executor ({case["mode"]}), files {fids}: {bad2}',
+					              impl=obs, spec=[_single(f, ks, auto) for f in fids], files=_describe(fids))
+			first = False
+
+
+# ------------------------------------------------------------------------------------------------
+# kind entry: the other public entry points that compute signatures for a list of files
+#   dist    gambit dist -q ... -r ... | --square   (queries: max_workers=cores; references: defaults)
+#   qparse  gambit.query.query_parse(db, files, parse_kw=...)
+#   query   gambit -d DB query -f json ...
+# Their output is not the signature list itself, so the predicate is stated on what they print: every row /
+# result item i must be the one computed from file i's single-file signature (the reference family f0..f7 has
+# pairwise different distances, so a misplaced, missing or duplicated signature changes a row).  If a file is
+# unreadable the command / call must fail.  Not compared with the model (its domain is the signature list).
+# ------------------------------------------------------------------------------------------------
+
+DB_REFS = [f'f{i}' for i in range(8)]
+
+
+def _entry_db():
+	"""a reference database whose genomes are the harness's own reference signatures of f0..f7 (key = file id)"""
+	if 'db_dir' in _S:
+		return _S['db_dir']
+	import numpy as np
+	from sqlalchemy import create_engine
+	from sqlalchemy.orm import Session
+	from gambit.db.models import Base, ReferenceGenomeSet, Taxon, Genome, AnnotatedGenome
+	from gambit.sigs import SignatureList, AnnotatedSignatures, SignaturesMeta, dump_signatures
+	d = os.path.join(_S['dir'], 'refdb')
+	os.makedirs(d)
+	eng = create_engine('sqlite:///' + os.path.join(d, 'ref.gdb'))
+	Base.metadata.create_all(eng)
+	with Session(eng) as s:
+		gs = ReferenceGenomeSet(id=1, key='verif/c13', version='1.0', name='c13')
+		s.add(gs)
+		tax = Taxon(id=1, key='t1', name='Taxon one', rank='species', genome_set=gs, distance_threshold=0.5, report=True)
+		s.add(tax)
+		for i, f in enumerate(DB_REFS):
+			g = Genome(id=i + 1, key=f, description=f'genome {f}')
+			s.add(g)
+			s.add(AnnotatedGenome(genome=g, genome_set=gs, taxon=tax, organism=f'organism {f}'))
+		s.commit()
+	eng.dispose()
+	sl = SignatureList([np.array(_file_table()[f]['ref'], dtype=np.uint16) for f in DB_REFS], _kspec(), dtype=np.uint16)
+	dump_signatures(os.path.join(d, 'ref.gs'), AnnotatedSignatures(sl, np.array(DB_REFS, dtype=object), SignaturesMeta(id_attr='key', name='c13')), 'hdf5')
+	_S['db_dir'] = d
+	return d
+
+
+def _dist(a, b):
+	import numpy as np
+	from gambit.metric import jaccarddist
+	return float(jaccarddist(np.array(a, dtype=np.uint16), np.array(b, dtype=np.uint16)))
+
+
+def _run_entry(case, n):
+	"""-> ('failed', why) | ('rows', [[float...] per query file], labels or None)"""
+	import json
+	out_dir = os.path.join(_S['dir'], 'cli-out')
+	os.makedirs(out_dir, exist_ok=True)
+	out = os.path.join(out_dir, f'entry-{os.getpid()}-{n}.out')
+	if os.path.exists(out):
+		os.remove(out)
+	q = case['files']
+	what = case['entry']
+	try:
+		if what == 'dist':
+			args = ['dist', '-k', str(K), '-p', PREFIX, '-o', out] + _cli_common(case) + _cli_file_args(case, q, n, positional=False, flag=('-q', '--ql', '--qdir'))
+			args += ['--square'] if case.get('refs') is None else _cli_file_args(case, case['refs'], n, positional=False, flag=('-r', '--rl', '--rdir'))
+			err = _invoke(args)
+			if err is not None:
+				return ('failed', err[1])
+			import csv
+			with open(out, newline='') as f:
+				rows = list(csv.reader(f))
+			return ('rows', [[float(x) for x in r[1:]] for r in rows[1:]], [r[0] for r in rows[1:]])
+		if what == 'query':
+			_call = None
+			args = ['-d', _entry_db(), 'query', '-f', 'json', '-o', out] + _cli_common(case) + _cli_file_args(case, q, n)
+			err = _invoke(args)
+			if err is not None:
+				return ('failed', err[1])
+			with open(out) as f:
+				items = json.load(f)['items']
+			return ('rows', [[it['closest_genomes'][0]['distance']] for it in items], [it['closest_genomes'][0]['genome']['key'] for it in items])
+		# query_parse
+		from gambit.db import ReferenceDatabase
+		from gambit.query import query_parse
+		if 'db' not in _S:
+			_S['db'] = ReferenceDatabase.load_from_dir(_entry_db())
+		kw = dict(case.get('parse_kw') or {})
+		if kw.get('concurrency') == 'none':
+			kw['concurrency'] = None
+		files = [_seqfile(f, bool(case.get('auto'))) for f in q]
+		ex = None
+		if kw.pop('executor', None):
+			ex = kw['executor'] = ThreadPoolExecutor(max_workers=3)
+		try:
+			with _Quiet():
+				res = query_parse(_S['db'], files, parse_kw=kw or None, progress=None, **({'file_labels': [f'label-{i}' for i in range(len(q))]} if case.get('labels') else {}))
+		finally:
+			if ex is not None:
+				ex.shutdown(wait=True)
+		return ('rows', [[float(it.closest_genomes[0].distance)] for it in res.items], [it.closest_genomes[0].genome.key for it in res.items])
+	except Exception as e:     # noqa
+		return ('failed', type(e).__name__)
+	finally:
+		if os.path.exists(out):
+			os.remove(out)
+
+
+def k_entry(ctx, cases):
+	for n, case in enumerate(cases):
+		q, refs = case['files'], case.get('refs')
+		what = case['entry']
+		auto = what != 'qparse' or bool(case.get('auto'))
+		obs = _run_entry(case, n)
+		if obs == ('failed', 'BrokenProcessPool'):
+			ctx.count('pool:broken-process-pool-retried')
+			obs = _run_entry(case, n)
+		ctx.count('entry:' + what)
+		allf = list(q) + list(refs or [])
+		singles = {f: _single(f, None, auto) for f in allf}
+		unreadable = sorted(f for f in allf if singles[f][0] == 'err')
+		ctx.case(case, nontrivial=len(q) >= 2 and _distinct(q))
+		bad = None
+		if obs[0] == 'failed':
+			if not unreadable:
+				bad = f'failed ({obs[1]}) although every file is readable'
+		elif unreadable:
+			bad = f'produced a result although {unreadable} cannot be read'
+		else:
+			if what == 'dist':
+				cols = q if refs is None else refs
+				want = [[_dist(singles[a][1], singles[b][1]) for b in cols] for a in q]
+				tol = 6e-5      # 4 decimals are printed
+			else:
+				want = [[min(_dist(singles[a][1], _file_table()[r]['ref']) for r in DB_REFS)] for a in q]
+				tol = 2e-6
+			got = obs[1]
+			if len(got) != len(want):
+				bad = f'{len(got)} result rows for {len(want)} files'
+			else:
+				wrong = [i for i in range(len(want)) if len(got[i]) != len(want[i]) or any(abs(x - y) > tol for x, y in zip(got[i], want[i]))]
+				if wrong:
+					i = wrong[0]
+					src = [j for j in range(len(want)) if len(got[i]) == len(want[j]) and all(abs(x - y) <= tol for x, y in zip(got[i], want[j]))]
+					bad = (f'row {i} (file {q[i]}) does not hold the distances of that file\'s signature'
+					       + (f': it holds those of file {src[0]} ({q[src[0]]})' if src else '') + f'; rows wrong: {wrong[:6]}')
+				elif what != 'dist':
+					# a query file that is itself a reference genome must be matched to that genome
+					lab = obs[2]
+					off = [i for i, f in enumerate(q) if f in DB_REFS and lab[i] != f]
+					if off:
+						bad = f'result {off[0]} (file {q[off[0]]}) names {lab[off[0]]} as the closest genome'
+		if bad is not None:
+			ctx.violation('entry', case, f'{what} on {len(q)} files: {bad}', impl=obs, spec=[singles[f][0] for f in allf], files=_describe(allf))
+
+
+KINDS = {'sched': k_sched, 'pool': k_pool, 'cli': k_cli, 'var': k_var, 'entry': k_entry}
 
 GOOD_SMALL = [f's{i}' for i in range(16)]
 
@@ -791,3 +1581,220 @@ def generate(ctx):
 		cli_cases += [dict(files=skewed(rng.randint(3, 8), 1), cores=c) for c in range(1, 9)]
 	for c in cli_cases:
 		yield 'cli', c
+
+	# ==== 5. coverage-audit streams (see the table in the module docstring) ==============================
+	yield from _audit_streams(ctx, rng, skewed)
+
+
+#: readable files by class
+GOOD_FASTA = GOOD_SMALL + ['z0', 'z1', 'm0', 'm1', 'e0', 'c0', 'u0', 'n0', 'x0', 'rel0', 'k0', 'k1'] + [f'f{i}' for i in range(8)]
+GOOD_NEW = ['q0', 'g0', 'c0', 'u0', 'n0', 'x0', 'rel0', 'k0', 'k1', 'zb0', 'f3', 'f5']
+KSPECS = [None, None, [12, 'ATG'], [17, 'AT'], [4, 'ATG'], [11, 'ATGAC']]
+
+
+def _audit_streams(ctx, rng, skewed):
+	q = ctx.quick
+
+	def some(pool, lo, hi):
+		n = rng.randint(lo, hi)
+		return [rng.choice(pool) for _ in range(n)] if n > len(pool) else rng.sample(pool, n)
+
+	def owned_mode():
+		return rng.choice(['seq', 'threads', 'processes', 'default'])
+
+	# ---- 5a. call forms / containers / progress meters / k-mer specs / compression='auto' / shared objects
+	for _ in range(ctx.pick(56, 400)):
+		mode = rng.choice(['seq', 'threads', 'threads', 'processes', 'default', 'sup-threads', 'sup-sync'])
+		fids = some(GOOD_FASTA + ['q0', 'g0'] + (['b0', 'zb0'] if rng.random() < 0.3 else []), 0 if rng.random() < 0.1 else 2, 7)
+		if fids and rng.random() < 0.35:
+			fids += [rng.choice(fids) for _ in range(rng.randint(1, 3))]      # repeated entries
+			rng.shuffle(fids)
+		if rng.random() < 0.25 and fids:
+			fids[rng.randrange(len(fids))] = rng.choice(list(BAD) + XBAD)
+		case = dict(files=fids, mode=mode, container=rng.choice(['list', 'tuple', 'deque', 'seqclass', 'ndarray', 'generator', 'tuple', 'seqclass']),
+		            form=rng.choice(['kw', 'kw', 'pos', 'allkw']), progress=rng.choice(PROGRESS_KINDS))
+		if rng.random() < 0.5:
+			case['kspec'] = rng.choice(KSPECS)
+		if rng.random() < 0.4:
+			case['auto'] = True
+		if rng.random() < 0.5:
+			case['same_obj'] = True
+		if mode in ('threads', 'processes', 'default', 'seq') and rng.random() < 0.6:
+			case['workers'] = rng.choice([1, 2, 3, 5])
+		if rng.random() < 0.15:
+			del case['progress']
+		ctx.count('stream:var-call-forms')
+		yield 'var', case
+
+	# ---- 5b. file classes the original table did not have, in every mode; the new unreadable classes at every position
+	for mode in ('seq', 'threads', 'processes', 'sup-threads', 'sup-processes'):
+		for rep in range(ctx.pick(2, 8)):
+			fids = some(GOOD_NEW, 3, 6) + some(GOOD_SMALL, 1, 2)
+			rng.shuffle(fids)
+			ctx.count('stream:var-new-readable-classes')
+			yield 'var', dict(files=fids, mode=mode, workers=rng.choice([None, 2, 4]), **({'pool_workers': 3} if mode.startswith('sup-') else {}))
+		for k, bad in enumerate(XBAD):
+			n = rng.randint(3, 5)
+			if q and ((mode == 'processes' and (k + ctx.seed) % 2) or (mode == 'sup-processes' and (k + ctx.seed) % 3)):
+				continue      # quick tier: process pools see every other / every third class (rotating with the seed)
+			for pos in (range(n) if mode == 'seq' or not q else [(k + len(mode)) % n]):      # (5c has every position x every order)
+				fids = some(GOOD_SMALL + GOOD_NEW, n, n)
+				fids[pos] = bad
+				if bad == 'latebig' and pos < n - 1:
+					fids[pos + 1:] = some(GOOD_SMALL, n - 1 - pos, n - 1 - pos)     # small files finish before the big one fails
+				ctx.count('stream:var-new-unreadable-classes')
+				yield 'var', dict(files=fids, mode=mode, workers=rng.choice([2, 3, 4]), **({'pool_workers': 2} if mode.startswith('sup-') else {}))
+	# two or three unreadable files of different (old and new) classes
+	for _ in range(ctx.pick(10, 60)):
+		fids = some(GOOD_SMALL, 2, 5) + rng.sample(list(BAD) + XBAD, rng.randint(2, 3))
+		rng.shuffle(fids)
+		ctx.count('stream:var-new-unreadable-classes')
+		yield 'var', dict(files=fids, mode=rng.choice(['seq', 'threads', 'processes', 'sup-sync', 'sup-threads']), workers=rng.choice([None, 2]))
+
+	# ---- 5c. controlled schedules (exhaustive orders) with the new unreadable classes at every position, n = 3
+	total = 0
+	for k, bad in enumerate(XBAD):
+		for sigma in itertools.permutations(range(3)):
+			for pos in range(3):
+				fids = [GOOD_SMALL[(k + i) % 16] for i in range(3)]
+				fids[pos] = bad
+				total += 1
+				yield 'sched', dict(files=fids, sigma=list(sigma), path=('supplied', 'threads', 'processes')[(k + pos) % 3], workers=2)
+	for _ in range(ctx.pick(30, 400)):
+		n = rng.randint(2, 9)
+		fids = some(GOOD_SMALL + GOOD_NEW, n, n)
+		for pos in rng.sample(range(n), rng.randint(0, min(3, n))):
+			fids[pos] = rng.choice(XBAD + ['missing'])
+		sigma = list(range(n))
+		rng.shuffle(sigma)
+		total += 1
+		yield 'sched', dict(files=fids, sigma=sigma, path=rng.choice(['supplied', 'threads', 'processes']), workers=rng.choice([None, 3]))
+	ctx.count('stream:sched-new-file-classes', total)
+
+	# ---- 5d. caller-supplied executors of other kinds; what is passed next to executor= must not matter
+	for _ in range(ctx.pick(40, 300)):
+		mode = rng.choice(['sup-sync', 'sup-burst', 'sup-burst', 'sup-busy', 'sup-shared', 'sup-threads', 'sup-processes'])
+		n = rng.randint(0 if rng.random() < 0.1 else 2, 8)
+		fids = some(GOOD_SMALL + ['m0', 'm1', 'z0'], n, n)
+		r = rng.random()
+		if n and r < 0.3:
+			fids[rng.randrange(n)] = rng.choice(list(BAD) + XBAD)
+		elif n and r < 0.5:
+			fids[rng.randrange(n)] = rng.choice(fids)
+		case = dict(files=fids, mode=mode, extra=rng.choice(['omit', 'none', 'threads', 'processes', 'fibers']), pool_workers=rng.randint(1, 5))
+		if rng.random() < 0.5:
+			case['workers'] = rng.choice([1, 3, 0, -2, 64])
+		if mode == 'sup-burst':
+			sigma = list(range(n))
+			rng.shuffle(sigma)
+			case.update(sigma=sigma, split=rng.choice([0, n, n, rng.randint(0, n)]))
+		if mode == 'sup-shared':
+			case['files2'] = some(GOOD_SMALL + ['m2', 'z1'] + (['nohdr'] if rng.random() < 0.25 else []), 2, 7)
+		if rng.random() < 0.3:
+			case['progress'] = rng.choice(PROGRESS_KINDS)
+		ctx.count('stream:var-supplied-executor-kinds')
+		yield 'var', case
+	for method in ('spawn', 'forkserver') if not q else (('spawn',) if ctx.seed % 2 == 0 else ('forkserver',)):
+		fids = ['b0'] + some(GOOD_SMALL, 3, 4)
+		if rng.random() < 0.5:
+			fids[rng.randint(1, 3)] = rng.choice(['missing', 'late', 'badcrc'])
+		ctx.count('stream:var-supplied-executor-kinds')
+		yield 'var', dict(files=fids, mode='sup-' + method, pool_workers=2)
+
+	# ---- 5e. worker counts: NumPy integer scalars, more workers than files, values the pools reject
+	for mode in ('threads', 'processes', 'seq', 'default'):
+		for w, t in [(2, 'np.int64'), (3, 'np.intp'), (1, 'np.uint8'), (4, 'np.int32'), (13, 'int'), (32 if mode == 'threads' else 16, 'int'),
+		             (0, 'int'), (-1, 'int'), (2, 'float'), (2, 'str'), (0, 'np.int64')]:
+			if q and mode in ('processes', 'default') and (w, t) in [(3, 'np.intp'), (4, 'np.int32'), (13, 'int'), (2, 'str'), (0, 'np.int64')]:
+				continue
+			if q and mode == 'default' and (w, t) not in [(2, 'np.int64'), (16, 'int'), (0, 'int'), (1, 'np.uint8')]:
+				continue
+			fids = ['b1' if rng.random() < 0.5 else 'm3'] + some(GOOD_SMALL, 2, 5)
+			if rng.random() < 0.3:
+				fids[rng.randrange(len(fids))] = rng.choice(list(BAD))
+			ctx.count('stream:var-worker-counts')
+			yield 'var', dict(files=fids, mode=mode, workers=w, wtype=t)
+
+	# ---- 5f. other size skews: big file in the middle / last but one / descending sizes / compressed big file / alternating
+	for conc in ('threads', 'processes'):
+		for rep in range(ctx.pick(1, 4)):
+			smalls = some(GOOD_SMALL, 6, 6)
+			shapes = [smalls[:2] + ['b0'] + smalls[2:4],
+			          smalls[:3] + ['b1', smalls[3]],
+			          ['b2', 'm0', 'm1', smalls[0], smalls[1], 'e0'],
+			          ['zb0'] + smalls[:3],
+			          ['b0', smalls[0], 'b1', smalls[1], 'b2', smalls[2]],
+			          ['m2', 'b0', smalls[0], 'zb0', smalls[1], smalls[2], smalls[3]],
+			          ['latebig'] + smalls[:3], [smalls[0], 'latebig', smalls[1], smalls[2]]]
+			for sh in shapes:
+				ctx.count('stream:var-skew-shapes')
+				yield 'var', dict(files=sh, mode=conc, workers=rng.choice([2, 3, 4]))
+			sh = rng.choice(shapes[:6])
+			ctx.count('stream:var-skew-shapes')
+			yield 'var', dict(files=sh, mode='sup-' + conc, pool_workers=rng.choice([2, 3]))
+
+	# ---- 5g. command line: list files, --ldir, long option, progress bar on, default k-mer spec, more -c values, repeated files
+	cli_pool = GOOD_FASTA + ['b0', 'zb0']
+	for i in range(ctx.pick(12, 80)):
+		fids = some(cli_pool, 2, 7)
+		# features rotate with i so that every quick run has each combination (list file x repeated entry x unreadable file)
+		if i % 4 == 3:
+			fids[rng.randrange(len(fids))] = rng.choice(['nohdr', 'binary', 'truncgz', 'late', 'latebig', 'badcrc', 'gbasfa'])
+		elif i % 4 == 1 or i % 8 == 2:
+			fids.insert(rng.randrange(len(fids)), rng.choice(fids))
+		if i % 4 == 0:
+			fids = [rng.choice(['b0', 'b1', 'zb0'])] + fids
+		case = dict(files=fids, cores=rng.choice([None, 1, 2, 3, 5, 8, 12]))
+		if i % 8 in (1, 3, 4, 6):
+			case['listfile'] = ('abs', 'ldir')[(i // 8 + i) % 2]
+			case['blank_lines'] = rng.random() < 0.3
+		if rng.random() < 0.4:
+			case['progress'] = True
+		if rng.random() < 0.4:
+			case['long'] = True
+		if rng.random() < 0.35:
+			case['kspec'] = rng.choice(['default', [12, 'ATG'], [6, 'AT']])
+		ctx.count('stream:cli-variants')
+		yield 'cli', case
+
+	# ---- 5h. the other entry points
+	fam = [f'f{i}' for i in range(8)]
+	for i in range(ctx.pick(8, 60)):
+		qf = some(fam + ['s0', 'm0', 'z0'], 2, 6)
+		refs = None if rng.random() < 0.3 else some(fam + ['s1', 'm1'], 2, 6)
+		r = rng.random()
+		if r < 0.2:
+			qf[rng.randrange(len(qf))] = rng.choice(['nohdr', 'binary', 'late', 'badcrc'])
+		elif r < 0.3 and refs:
+			refs[rng.randrange(len(refs))] = rng.choice(['nohdr', 'truncgz', 'late'])
+		if i % 3 == 0:
+			qf = ['b0'] + qf       # skew
+		case = dict(entry='dist', files=qf, refs=refs, cores=rng.choice([None, 1, 2, 4]))
+		if rng.random() < 0.4:
+			case['listfile'] = rng.choice(['abs', 'ldir'])
+		if rng.random() < 0.3:
+			case['progress'] = True
+		ctx.count('stream:entry-dist')
+		yield 'entry', case
+	for i in range(ctx.pick(12, 80)):
+		qf = some(fam + ['s0', 's2', 'm0', 'z1', 'c0'], 2, 7)
+		if i % 3 == 0:
+			qf = ['b1'] + qf
+		if rng.random() < 0.2:
+			qf[rng.randrange(len(qf))] = rng.choice(['nohdr', 'binary', 'late', 'missing'] if i % 2 else ['nohdr', 'binary', 'late'])
+		if i % 2:
+			kw = {}
+			if rng.random() < 0.8:
+				kw['concurrency'] = rng.choice(['threads', 'processes', 'none'])
+			if rng.random() < 0.6:
+				kw['max_workers'] = rng.choice([1, 2, 4])
+			if rng.random() < 0.25:
+				kw['executor'] = True
+			case = dict(entry='qparse', files=qf, parse_kw=kw, labels=rng.random() < 0.5, auto=rng.random() < 0.5)
+			ctx.count('stream:entry-query-parse')
+		else:
+			case = dict(entry='query', files=qf, cores=rng.choice([None, 1, 2, 3]))
+			if rng.random() < 0.4:
+				case['listfile'] = rng.choice(['abs', 'ldir'])
+			ctx.count('stream:entry-query-cli')
+		yield 'entry', case
